@@ -11,7 +11,7 @@ from exprgen import *
 import gen_casttable
 
 PID = 'C01'
-THEOREMS = ['C01_expr_correct', 'C01_expr_nonvacuous', 'C01_common_type', 'C01_typing', 'C01_cast_table', 'C01_arith', 'C01_compare', 'C01_shift',
+THEOREMS = ['C01_expr_correct', 'C01_expr_code_correct', 'C01_expr_nonvacuous', 'C01_common_type', 'C01_typing', 'C01_cast_table', 'C01_arith', 'C01_compare', 'C01_shift',
             'C01_neg', 'C01_bitnot', 'C01_lognot', 'C01_nonvacuous']
 MODELRUN = os.path.join(VERIF, 'ocaml/modelrun')
 PRINTF = 'int printf(const char *, ...);\n'
@@ -210,7 +210,7 @@ def main():
         gen_casttable.gen(REPO, os.path.join(COQ, 'theories/Gen/CastTable.v'))
     except GenError as e:
         run.proof_broken.append('translator: ' + str(e))
-    run.check_proofs(deps=['theories/Model/CodegenInt.vo', 'theories/Gen/CastTable.vo', 'theories/Model/ConstFold.vo', 'theories/Model/ExprGen.vo', 'theories/Proofs/ExprGenProofs.vo'])
+    run.check_proofs(deps=['theories/Model/CodegenInt.vo', 'theories/Gen/CastTable.vo', 'theories/Model/ConstFold.vo', 'theories/Model/ExprGen.vo', 'theories/Proofs/ExprGenProofs.vo', 'theories/Model/ExprFlat.vo', 'theories/Proofs/ExprFlatProofs.vo'])
     rc, o, e = sh([os.path.join(VERIF, 'ocaml/build.sh')], timeout=900)
     if rc != 0:
         run.corr_broken.append('extracted model does not build: ' + (o + e)[-300:])
@@ -248,14 +248,16 @@ def main():
     elif rc2 != 0: run.corr_broken.append('extracted compile failed: ' + me[-200:])
     else:
         def norm(lines):
+            """instructions with jump targets as positions: labels (chibicc) are resolved to the index of the next instruction"""
             out = []; labels = {}
             for l in lines:
                 l = re.sub(r'\s+', ' ', l.strip())
+                m = re.match(r'(\.L\.\w+\.\d+):$', l)
+                if m: labels[m.group(1)] = len(out); continue
                 m = re.match(r'mov \$(-?\d+), %rax$', l)
                 if m: l = 'mov $%d, %%rax' % (int(m.group(1)) % (1 << 64))
-                l = re.sub(r'\.L\.(\w+)\.(\d+)', lambda m: '.L.%s.%d' % (m.group(1), labels.setdefault(m.group(2), len(labels))), l)
                 out.append(l)
-            return out
+            return [re.sub(r'(\.L\.\w+\.\d+)$', lambda m: '@%s' % labels.get(m.group(1), m.group(1)), l) for l in out]
         bodies = {}; cur = None; started = False
         for l in asm.split('\n'):
             t = l.strip()
